@@ -262,7 +262,8 @@ def cpython_import(root: Path, top: str, case) -> dict[str, types.ModuleType]:
 
 
 MODULE_DUNDERS = frozenset(
-    ("__name__", "__doc__", "__package__", "__loader__", "__spec__", "__path__", "__file__", "__cached__", "__builtins__")
+    ("__name__", "__doc__", "__package__", "__loader__", "__spec__", "__path__", "__file__", "__cached__", "__builtins__",
+     "__annotations__")
 )
 
 
@@ -316,7 +317,7 @@ def simulate(case) -> dict:
                         si = src["ns"].get(n)
                         if si is None:
                             continue
-                        bind(n, {"depth": si["depth"] + 1, "wild": True, "origin": si["origin"]}, "wild")
+                        bind(n, {"depth": si["depth"] + 1, "wild": True, "origin": si["origin"], "via": stmt["mod"]}, "wild")
                     # names whose presence depends on import history: sub-modules of a wildcard source package
                     if src["exports"] is None:
                         uncertain |= {base_name(c) for c in children(case, stmt["mod"]) if not base_name(c).startswith("_")}
@@ -327,7 +328,7 @@ def simulate(case) -> dict:
                         sub = f"{stmt['mod']}.{n}" if stmt["mod"] else n
                         if src is not None and n in src["ns"]:
                             si = src["ns"][n]
-                            bind(bound, {"depth": si["depth"] + 1, "wild": False, "origin": si["origin"]}, "from")
+                            bind(bound, {"depth": si["depth"] + 1, "wild": False, "origin": si["origin"], "via": stmt["mod"]}, "from")
                         elif stmt["mod"] in pkgs and sub in {m["path"] for m in case["mods"]}:
                             bind(bound, {"depth": 1, "wild": False, "origin": (sub, None)}, "from")
                         elif n == "__all__":
@@ -543,6 +544,7 @@ def packages(draw, max_mods: int = 6, max_stmts: int = 6, allow_join: bool = Fal
         if draw(st.integers(0, 9)) < 4:
             _add_all(draw, case, mod, sim, sources, all_forms)
             sim = simulate(case)
+        body = mod["body"]
         if allow_join:
             for k in range(1, len(body)):
                 if body[k]["t"] in ("val", "from", "import", "all") and body[k - 1]["t"] in ("val", "from", "import", "all"):
@@ -556,7 +558,7 @@ def _add_all(draw, case, mod, sim, sources, all_forms: bool) -> None:
     path = mod["path"]
     me = sim[path]
     names = sorted(n for n in me["ns"] if n not in ("$TOP", "__all__"))
-    seq = draw(st.sampled_from(("list",) * 8 + ("tuple", "set"))) if all_forms else "list"
+    seq = draw(st.sampled_from(("list",) * 4 + ("tuple",))) if all_forms else "list"
     items: list = list(draw(st.lists(st.sampled_from(names), max_size=4, unique=True))) if names else []
     assign_pos = draw(st.integers(0, len(body)))
     splices = []
@@ -571,7 +573,10 @@ def _add_all(draw, case, mod, sim, sources, all_forms: bool) -> None:
     for src, form in splices:
         level = _pick_level(draw, path, mod["pkg"], src)
         if form.endswith("-attr"):
-            if draw(st.booleans()) and src != "":
+            # `<top>.a.b.__all__` reads attributes of packages: `a` must be fully imported, so it must not be
+            # this module or one of its ancestors (which may still be initialising)
+            shares_branch = src != "" and path != "" and src.split(".")[0] == path.split(".")[0]
+            if src != "" and (shares_branch or draw(st.booleans())):
                 # module bound by `from <pkg> import <mod>`
                 pkg = parent_path(src)
                 pre.append({"t": "from", "mod": pkg, "level": _pick_level(draw, path, mod["pkg"], pkg), "names": [[base_name(src), None]]})
